@@ -604,3 +604,46 @@ def zero_is_valid_obligation(ctx, names):
         for nm in sorted(names):
             ctx.ok('elfi', 'no truthiness test of `{}`'.format(nm),
                    '{} functions scanned; positive example matched'.format(nf))
+
+
+def inplace_param_sites(fnode):
+    """Statements of a function that modify one of its parameters in place: augmented assignment
+    to / subscript store into a parameter or a view of it (np.atleast_1d, asarray, ravel, squeeze,
+    reshape return the input itself for an ndarray), or `out=` aimed at it.  A name that is
+    re-bound to something else first is not an alias any more (path-insensitive: any plain
+    re-binding removes it)."""
+    args = fnode.args
+    params = {a.arg for a in args.posonlyargs + args.args + args.kwonlyargs} - {'self', 'cls'}
+    rebound = set()
+    aliases = set(params)
+    for n in ast.walk(fnode):
+        if isinstance(n, ast.Assign) and len(n.targets) == 1 and \
+                isinstance(n.targets[0], ast.Name):
+            v = n.value
+            view = isinstance(v, ast.Call) and v.args and isinstance(v.args[0], ast.Name) and \
+                v.args[0].id in aliases and \
+                (v.func.attr if isinstance(v.func, ast.Attribute) else getattr(v.func, 'id', '')) \
+                in ('atleast_1d', 'atleast_2d', 'asarray', 'asanyarray', 'ravel', 'squeeze',
+                    'reshape')
+            if view:
+                aliases.add(n.targets[0].id)
+            elif n.targets[0].id in params:
+                rebound.add(n.targets[0].id)
+    aliases -= rebound
+    out = []
+    for n in ast.walk(fnode):
+        if isinstance(n, ast.AugAssign):
+            t = n.target
+            base = t.value if isinstance(t, ast.Subscript) else t
+            if isinstance(base, ast.Name) and base.id in aliases:
+                out.append(n)
+        elif isinstance(n, ast.Assign):
+            for t in n.targets:
+                if isinstance(t, ast.Subscript) and isinstance(t.value, ast.Name) and \
+                        t.value.id in aliases:
+                    out.append(n)
+        elif isinstance(n, ast.Call):
+            for k in n.keywords:
+                if k.arg == 'out' and isinstance(k.value, ast.Name) and k.value.id in aliases:
+                    out.append(n)
+    return out
